@@ -15,9 +15,10 @@
 //          (`-` when no behaviour was invoked, `a+b` if more than one), then
 //          `;len=<behaviorStack.Len()>;depth=<linked nodes>`
 //
-// All messages are sent with actor.Tell from this goroutine; quiescence is detected by a counting
-// mailbox wrapper (every message handed out by Dequeue is finished when Dequeue is called again),
-// never by sleeping, and it works for an actor that has no behaviour left.
+// All messages are sent with actor.Tell from this goroutine; quiescence is the dispatcher's own
+// observation (the mailbox wrapper saw a Dequeue that found the mailbox empty after the last send),
+// never a sleep, and it works for an actor that has no behaviour left. Watchdog: `HANG` if the actor
+// does not go idle within 5 s; after 2 such cases every further case answers `HANG-skipped`.
 package main
 
 import (
@@ -33,14 +34,14 @@ import (
 	"github.com/tochemey/goakt/v4/log"
 )
 
-// countingMailbox delegates to the real UnboundedMailbox and counts.
+// countingMailbox delegates to the real UnboundedMailbox. `idle` is true exactly when the last
+// operation on it was a Dequeue that found it empty: once the harness has stopped sending, that is
+// the dispatcher's own "nothing left" observation.
 type countingMailbox struct {
-	inner     *actor.UnboundedMailbox
-	mu        sync.Mutex
-	cond      *sync.Cond
-	enq       int
-	handed    int
-	completed int
+	inner *actor.UnboundedMailbox
+	mu    sync.Mutex
+	cond  *sync.Cond
+	idle  bool
 }
 
 func newCountingMailbox() *countingMailbox {
@@ -51,18 +52,15 @@ func newCountingMailbox() *countingMailbox {
 
 func (m *countingMailbox) Enqueue(c *actor.ReceiveContext) error {
 	m.mu.Lock()
-	m.enq++
-	m.mu.Unlock()
+	defer m.mu.Unlock()
+	m.idle = false
 	return m.inner.Enqueue(c)
 }
 
 func (m *countingMailbox) Dequeue() *actor.ReceiveContext {
 	m.mu.Lock()
-	m.completed = m.handed
 	r := m.inner.Dequeue()
-	if r != nil {
-		m.handed++
-	}
+	m.idle = r == nil
 	m.cond.Broadcast()
 	m.mu.Unlock()
 	return r
@@ -71,14 +69,14 @@ func (m *countingMailbox) IsEmpty() bool { return m.inner.IsEmpty() }
 func (m *countingMailbox) Len() int64    { return m.inner.Len() }
 func (m *countingMailbox) Dispose()      { m.inner.Dispose() }
 
-// waitQuiet blocks until every enqueued message has been fully processed.
+// waitQuiet blocks until the dispatcher found the mailbox empty (true) or the watchdog expires (false).
 func (m *countingMailbox) waitQuiet(d time.Duration) bool {
 	deadline := time.Now().Add(d)
 	timer := time.AfterFunc(d, func() { m.mu.Lock(); m.cond.Broadcast(); m.mu.Unlock() })
 	defer timer.Stop()
 	m.mu.Lock()
 	defer m.mu.Unlock()
-	for m.completed != m.enq {
+	for !m.idle {
 		if time.Now().After(deadline) {
 			return false
 		}
@@ -127,7 +125,22 @@ func (a *switcher) handle(k int, ctx *actor.ReceiveContext) {
 var (
 	sys     actor.ActorSystem
 	counter int
+	hangs   int // cases that ended in HANG; after maxHangs the rest is skipped so a broken tree cannot stall the run
 )
+
+const (
+	maxHangs = 2
+	watchdog = 5 * time.Second
+)
+
+func shutdown(pid *actor.PID) {
+	done := make(chan struct{})
+	go func() { _ = pid.Shutdown(context.Background()); close(done) }()
+	select {
+	case <-done:
+	case <-time.After(2 * time.Second):
+	}
+}
 
 func handle(line string) string {
 	f := vlib.Fields(line)
@@ -152,6 +165,9 @@ func handle(line string) string {
 			}
 		}
 	}
+	if hangs >= maxHangs {
+		return "HANG-skipped"
+	}
 	ctx := context.Background()
 	a := &switcher{invoked: make([][]int, len(msgs))}
 	for k := 1; k < 10; k++ {
@@ -164,14 +180,15 @@ func handle(line string) string {
 	if err != nil {
 		return "spawn-error " + vlib.Canon(err.Error())
 	}
-	defer func() { _ = pid.Shutdown(ctx) }()
+	defer shutdown(pid)
 	for i, m := range msgs {
 		if err := actor.Tell(ctx, pid, &step{idx: i, ops: m}); err != nil {
 			return "tell-error " + vlib.Canon(err.Error())
 		}
 	}
-	if !mb.waitQuiet(20 * time.Second) {
-		return "TIMEOUT"
+	if !mb.waitQuiet(watchdog) {
+		hangs++
+		return "HANG"
 	}
 	mb.mu.Lock() // happens-after the actor's last write
 	defer mb.mu.Unlock()
